@@ -79,7 +79,7 @@ def g1_apportionment(ctx):
                     if K is not None and P is not None and len(K.elems) == len(P.elems) and (K.source == P.source or (blocs_ok and K.source in canon and P.source in canon)):
                         oka, why = True, f"per-bloc blocks of {len(K.elems)} over {K.source} / {P.source}"
                 shapes.add("blocs" if ks == {("keys", "self.bloc_voter_prop")} else "types")
-            ctx.check_shape(okm and okt and okz and oka, f, c, f"{f.short}: counts = Huntington-Hill of number_of_ballots by the proportions, keyed in the proportions' order",
+            ctx.check(okm and okt and okz and oka, f, c, f"{f.short}: counts = Huntington-Hill of number_of_ballots by the proportions, keyed in the proportions' order",
                       why[:160], f"`{astx.u(c)}`: method ok={okm}, total is the number_of_ballots parameter={okt}, dict(zip(keys, counts))={okz}, keys/proportions aligned={oka} ({why[:120]})")
     if n < 7:
         ctx.vanished("apportionment call sites" + ": " + f"only {n} apportionment calls in generate_profile* (floor 7)")
